@@ -208,6 +208,7 @@ class ImmutabilityGuard:
         self.own_stats = {'recalled': 0, 'skipped_impure': 0, 'skipped_slow': 0, 'skipped_view_of_argument': 0, 'clobber_checked': 0}
         self._sig = {}
         self._fp = None
+        self._own_seen = {}
         self.depth = 0
         self.events = []
         self.installed = 0
@@ -367,6 +368,36 @@ class ImmutabilityGuard:
                 return bool(d.size and float(d.max()) > 1e-6 * sc)
         return not np.array_equal(x, y)
 
+    OWN_PER_SIGNATURE = 4
+
+    @staticmethod
+    def _argsig(x, depth=0):
+        if isinstance(x, np.ndarray):
+            return ('a', x.shape, x.dtype.str, x.flags.c_contiguous)
+        if hasattr(x, 'untyped_storage'):
+            return ('t', tuple(x.shape), str(x.dtype), bool(x.requires_grad))
+        if x is None or isinstance(x, (bool, str)):
+            return x
+        if isinstance(x, (int, np.integer)):
+            return ('i', int(x)) if -8 <= x <= 8 else ('i',)
+        if isinstance(x, (float, complex, np.floating, np.complexfloating)):
+            return (type(x).__name__,)
+        if isinstance(x, (tuple, list, set, frozenset)) and depth < 2:
+            return (type(x).__name__, len(x)) + tuple(ImmutabilityGuard._argsig(y, depth + 1) for y in list(x)[:4])
+        return (type(x).__name__,)
+
+    def _own_due(self, qual, a, kw):
+        """the ownership oracles are structural (which buffer a result lives in depends on the code path, i.e. on shapes,
+        dtypes and options, not on values): they are applied to the first OWN_PER_SIGNATURE depth-0 calls of every
+        (function, argument signature) of each case; the counters are reset when the engine drains the guard"""
+        try:
+            key = (qual, tuple(self._argsig(x) for x in a), tuple((k, self._argsig(v)) for k, v in sorted(kw.items())))
+            n = self._own_seen.get(key, 0)
+        except TypeError:
+            return True
+        self._own_seen[key] = n + 1
+        return n < self.OWN_PER_SIGNATURE
+
     def _seed_unseeded(self, f, a, kw):
         import inspect
         if f not in self._sig:
@@ -511,10 +542,11 @@ class ImmutabilityGuard:
             if guard.depth > 0:
                 return f(*a, **kw)
             before = [(i, x, guard._snap(x)) for i, x in enumerate(a)] + [(k, x, guard._snap(x)) for k, x in kw.items()]
-            prev = guard._clobber_before(qual) if guard.own else None
+            own = guard.own and guard._own_due(qual, a, kw)
+            prev = guard._clobber_before(qual) if own else None
             # fingerprint before the call = the one taken after the previous wrapped call (if the harness drew from a global
             # generator in between, the call merely looks impure and the repetition is skipped: the safe direction)
-            fp0 = (guard._fp if guard._fp is not None else rng_fingerprint()) if guard.own else None
+            fp0 = (guard._fp if guard._fp is not None else rng_fingerprint()) if own else None
             guard.depth += 1
             t0 = time.perf_counter()
             try:
@@ -525,7 +557,9 @@ class ImmutabilityGuard:
             for i, x, b in before:
                 if b is not None and guard._changed(x, b):
                     guard.events.append((qual, i))
-            if guard.own:
+            if not own:
+                guard._fp = None
+            else:
                 guard._clobber_after(qual, prev)
                 guard._fp = rng_fingerprint()
                 if guard._fp == fp0:
@@ -570,6 +604,8 @@ class ImmutabilityGuard:
         return self
 
     def drain(self):
+        self._own_seen = {}
+        self.last = {}
         ev, self.events = self.events, []
         return ev
 
